@@ -53,13 +53,22 @@ fn check(c: &Cfg, steps: usize) -> Result<u64, (String, String)> {
     // Nondeterminism of the subject shows up as run-to-run differences, possibly only sometimes: compare several independently
     // built simulators against the first one, so that a random tie-break or entropy source is caught (and re-caught on replay) with near certainty.
     let mut total = 0u64;
-    for _rep in 0..4 { total = check_pair(c, steps, &what)?; }
+    for rep in 0..4 { total = check_pair(c, steps, &what, rep)?; }
     Ok(total)
 }
-fn check_pair(c: &Cfg, steps: usize, what: &str) -> Result<u64, (String, String)> {
+/// `rep` varies what happens in the process between the two constructions (nothing / a simulator with another strategy is built /
+/// another one with the same strategy is built and run): the outcome may depend on the configuration only, not on process history.
+fn check_pair(c: &Cfg, steps: usize, what: &str, rep: u32) -> Result<u64, (String, String)> {
     let what = what.to_string();
     let r = catch(|| -> Result<u64, (String, String)> {
-        let (mut a, da) = make(c); let (mut b, db) = make(c);
+        let (mut a, da) = make(c);
+        match rep % 4 {
+            1 => { let other = Simulator::new(SimFlags { machine_init: MachineInitStrategy::Seeded { seed: 0x5EED }, ..Default::default() }); std::hint::black_box(&other); }
+            2 => { let (mut x, _) = make(c); for _ in 0..25 { let _ = x.step_in(); } x.reset(); }
+            3 => { let other = Simulator::new(SimFlags { machine_init: MachineInitStrategy::Known { value: 0x0F0F }, ..Default::default() }); std::hint::black_box(&other); let (x, _) = make(c); std::hint::black_box(&x); }
+            _ => {}
+        }
+        let (mut b, db) = make(c);
         // initial state identical, and Known fills everything outside the OS image, the loaded program and the I/O page
         for x in 0..=0xFFFFu16 { if a.mem[x] != b.mem[x] { return Err(("initial-memory-differs".into(), format!("{what}: two simulators built alike start with different memory"))); } }
         for i in 0..8 { if a.reg_file[reg(i)] != b.reg_file[reg(i)] { return Err(("initial-registers-differ".into(), format!("{what}: two simulators built alike start with different registers"))); } }
@@ -95,7 +104,7 @@ fn cfgs(thorough: bool) -> Vec<Cfg> {
     v
 }
 pub fn run(ctx: &Ctx) -> Report {
-    let mut rep = Report::new("grid: machine strategies {Seeded 0,1,2,7,2^63 (thorough +4), Known 0,xFFFF,x1234} x timer ranges {3..=3, 1..=3, 0..=2, 5..40, and three timers of equal priority firing on the same steps} x timer seeds x 5 programs (one whose results depend on uninitialized registers and memory, a counting loop under timer interrupts, a GETC/OUT echo loop, PUTS + subroutine with stack, a stack-walking loop) x keyboard inputs x flag sets; for each configuration independently constructed simulators (4 pairs): identical initial 64K memory and registers, then after every one of 400 (thorough 1500) steps identical result, registers (with init flags), PC, PSR, touched memory, frame depth, instruction count, output; identical final memory; Known{v}: every register and every word outside the OS image and the I/O page equals v. non-trivial = configurations in which timer interrupts were taken");
+    let mut rep = Report::new("grid: machine strategies {Seeded 0,1,2,7,2^63 (thorough +4), Known 0,xFFFF,x1234} x timer ranges {3..=3, 1..=3, 0..=2, 5..40, and three timers of equal priority firing on the same steps} x timer seeds (each configuration 4 times: with nothing, a simulator of another strategy, a run-and-reset simulator of the same configuration, or both built in the process between the two constructions) x 5 programs (one whose results depend on uninitialized registers and memory, a counting loop under timer interrupts, a GETC/OUT echo loop, PUTS + subroutine with stack, a stack-walking loop) x keyboard inputs x flag sets; for each configuration independently constructed simulators (4 pairs): identical initial 64K memory and registers, then after every one of 400 (thorough 1500) steps identical result, registers (with init flags), PC, PSR, touched memory, frame depth, instruction count, output; identical final memory; Known{v}: every register and every word outside the OS image and the I/O page equals v. non-trivial = configurations in which timer interrupts were taken");
     let cs = cfgs(ctx.thorough());
     let steps = ctx.pick(400usize, 1500usize);
     let r = sweep(ctx, cs.len() as u64, 1, |i, acc| {
